@@ -149,6 +149,10 @@ def loop_cubic(rng):
 OKDEF_BEZ = r'''
 From SVP Require Import Model.Bezier Model.Crop.
 Definition N := NumQ.
+(* variant of crop_bezier's relocation the implementation runs (behavioural probe):
+   false = t1_adj from the radialrange oracle (recorded, an input of the model),
+   true  = t1_adj = (t1 - t0)/(1 - t0) computed by the code itself (no oracle) *)
+Definition AN : bool := __AN__.
 Definition u53 : Qc := two_pow_neg 53.
 Definition e9 : Qc := Q2Qc (1 # 1000000000).
 Definition e6 : Qc := Q2Qc (1 # 1000000).
@@ -166,7 +170,7 @@ Definition m_split (p : list (Cplx Qc)) (t : Qc) : list (Cplx Qc) * list (Cplx Q
 Definition m_crop (p : list (Cplx Qc)) (t0 t1 adj : Qc) : list (Cplx Qc) :=
   match p with
   | [s; e] => let '(a, b) := line_cropped N s e t0 t1 in [a; b]
-  | _ => crop_bezier N p t0 t1 adj
+  | _ => crop_bezier_v N AN p t0 t1 adj
   end.
 Definition ok (c : casety) : nat :=
   let '(p, t0, t1, oracle, ts, o_rev, o_sl, o_sr, o_crop, us) := c in
@@ -181,7 +185,7 @@ Definition ok (c : casety) : nat :=
      (lclose (cclose tol) o_sr (snd sp), 3);                  (* split(ts)[1] *)
      (lclose (cclose tol) o_crop (m_crop p t0 t1 adj), 4);    (* cropped(t0,t1), given the oracle's answer *)
      (* the asserts of crop_bezier hold (the implementation returned) *)
-     (match p with [_; _] => true | _ => crop_bezier_pre N t0 t1 adj || negb used end, 5);
+     (match p with [_; _] => true | _ => crop_bezier_pre_v N AN t0 t1 adj || negb used end, 5);
      (* the property on the observed control points, exact arithmetic *)
      (forallb (fun u => cclose tolp (bern N o_crop u) (bern N p (t0 + u * (t1 - t0))%Qc)) us, 6);
      (forallb (fun u => cclose tolp (bern N o_rev u) (bern N p (1 - u)%Qc)) us, 7);
@@ -271,7 +275,26 @@ def bez_json(pts, t0, t1, ts, sty=None):
                 names[len(pts)], ', '.join(repr(p) for p in cast_pts(pts, sty)), t0, t1, ts)}
 
 
-def run_bez(rep, rng, n, tmp, replay_case=None):
+def detect_an():
+    """does crop_bezier relocate t1 analytically (True) or with radialrange (False)?"""
+    from svgpathtools import CubicBezier
+    called = []
+    orig = CubicBezier.radialrange
+
+    def wrapped(self, *a, **k):
+        called.append(1)
+        return orig(self, *a, **k)
+    CubicBezier.radialrange = wrapped
+    try:
+        CubicBezier(0j, 1j, 1 + 1j, 1 + 0j).cropped(0.25, 0.75)
+    except Exception:
+        pass
+    finally:
+        CubicBezier.radialrange = orig
+    return not called
+
+
+def run_bez(rep, rng, n, tmp, replay_case=None, an=False):
     todo = []
     if replay_case:
         todo = [replay_case]
@@ -281,6 +304,13 @@ def run_bez(rep, rng, n, tmp, replay_case=None):
         todo.append(([0j, 2 + 4j, 4 + 0j], 0.25, 0.75, 0.5, 'corpus-quad'))
         todo.append(([0j, 0 + 8j, 8 + 8j, 8 + 0j], 0.25, 0.75, 0.5, 'corpus-cubic'))
         todo.append(([0j, 0 + 8j, 8 + 8j, 8 + 0j], 0.0, 1.0, 0.0, 'corpus-cubic-full'))
+        # reproducers of the relocation defects of the radialrange variant (KF-C09-1, KF-C09-2,
+        # crop-bezier-relocation-inaccurate); exact with the analytic relocation
+        todo.append(([0j, 2 + 0j, 1 + 0j], 0.25, 0.5, 0.5, 'corpus-relocation-wrong-branch'))
+        todo.append(([0j, 3 + 3j, -2 + 3j, 1 + 0j], 0.06698729810778067, 0.9330127018922193, 0.5,
+                     'corpus-relocation-asserts'))
+        todo.append(([0j, 3 + 3j, -2 + 3j, 1 + 0j], 0.05, 0.9330127018922193, 0.5, 'corpus-relocation-wrong-branch'))
+        todo.append(([0j, 6j, 10j, 12j], 0.1, 0.8, 0.5, 'corpus-relocation-inaccurate'))
         for i in range(n):
             k = rng.choice([2, 3, 3, 4, 4])
             pts, mode = gen_points(rng, k)
@@ -305,13 +335,14 @@ def run_bez(rep, rng, n, tmp, replay_case=None):
                 # straight-line Beziers with NON-uniform speed make the radialrange relocation of
                 # crop_bezier inaccurate (~1e-7, key crop-bezier-relocation-inaccurate): interior crops
                 # (the oracle branch) only on equally spaced control points, else t0 = 0 or t1 = 1
-                uni = (i // len(SCALAR_TYPES)) % 2 == 0
+                uni = (i // len(SCALAR_TYPES)) % 2 == 0 and not an
+                free = an          # analytic relocation: any interior crop of any straight-line Bezier
                 pts = gen_int_points(rng, k, uniform=uni)
                 if sty == 'mixed-int-complex':
                     pts[0] = complex(pts[0].real, rng.randint(1, 9))
                     uni = False
                 t0, t1 = gen_t01(rng)
-                if not uni and 0.0 < t0 and t1 < 1.0:
+                if not uni and not free and 0.0 < t0 and t1 < 1.0:
                     if rng.random() < 0.5: t0 = 0.0
                     else: t1 = 1.0
             todo.append((pts, t0, t1, gen_t(rng), 'typed-' + sty, sty))
@@ -366,7 +397,7 @@ def run_bez(rep, rng, n, tmp, replay_case=None):
                     % o['impl_err'])
             found.setdefault(key, [0, what, dict(bez_json(pts, t0, t1, ts, sty), kind='property',
                                                  t1_adj=o['adj'], expected_t1_adj=exp_adj, error=o['impl_err'])])[0] += 1
-    fails, errors = common.run_cases(tmp, '', 'casety', OKDEF_BEZ, cases,
+    fails, errors = common.run_cases(tmp, '', 'casety', OKDEF_BEZ.replace('__AN__', coq_bool(an)), cases,
                                      shard=max(8, (len(cases) + 15) // 16), prefix='bez')
     for e in errors:
         rep.violation('correspondence case file (Bezier) failed to evaluate', {'kind': 'cases', 'error': e},
@@ -791,7 +822,7 @@ def make_seg(rng, a, b, kind):
                rng.random() < 0.5, rng.random() < 0.5, b)
 
 
-def gen_path(rng):
+def gen_path(rng, an=False):
     """(path, description, flags)"""
     from svgpathtools import Path, Line
     fam = rng.choice(['open', 'open', 'closed', 'closed', 'closed', 'lines', 'dup-equal', 'dup-same', 'single',
@@ -808,7 +839,7 @@ def gen_path(rng):
             cp = [x]
             d = rng.choice([1, 3, 5, 7, 9])          # equally spaced: see gen_int_points
             for _ in range(k - 1):
-                cp.append(cp[-1] + d)
+                cp.append(cp[-1] + (rng.randint(1, 9) if an else d))
             x = cp[-1]
             segs.append({2: Line, 3: QuadraticBezier, 4: CubicBezier}[k](*cast_pts(cp, sty)))
         # joints must compare equal whatever the scalar types are (3 == 3.0 == np.int64(3))
@@ -1121,7 +1152,7 @@ def holds_path(path, T0, T1, how, o, fam, variants=(False, False, False)):
                         return 'path-cropped-index-duplicate-segment'
         if t2t_bad:
             return 'path-cropped-via-T2t-defect'
-        if T1 == 0 and T0 > 0 and closed and n > 1:
+        if T1 == 0 and T0 > 0 and closed and n > 1 and not variants[2]:
             return 'path-cropped-to-T1-zero-extra-loop'
         if hand:
             return 'path-cropped-isclose-handover'
@@ -1344,7 +1375,7 @@ def corpus_paths():
             (sq(), 0.875, 0.0, 'wrap', 'corpus-to-zero')]
 
 
-def run_path(rep, rng, n, tmp, replay_case=None, variants=(False, False, False)):
+def run_path(rep, rng, n, tmp, replay_case=None, variants=(False, False, False), an=False):
     import svgpathtools
     cases, meta, fams, hows = [], [], {}, {}
     found = {}
@@ -1356,7 +1387,7 @@ def run_path(rep, rng, n, tmp, replay_case=None, variants=(False, False, False))
         todo = corpus_paths()
         for i in range(n):
             try:
-                path, fam = gen_path(rng)
+                path, fam = gen_path(rng, an)
             except Exception:
                 continue
             try:
@@ -1424,6 +1455,8 @@ def run(rep, tier, seed, replay=None):
         if info['agree_failed']:
             nb, na, npth = nb * 3, na * 2, npth * 2
         fx = detect_fx()
+        an = detect_an()
+        rep.cov['crop_bezier_analytic_relocation'] = an
         rb = ra = rp = None
         if replay:
             r = json.load(open(replay))['replay']
@@ -1442,13 +1475,13 @@ def run(rep, tier, seed, replay=None):
         nbez = nbnt = narc = nant = npa = npnt = 0
         bmodes = afams = pfams = phows = {}
         if not replay or rb:
-            nbez, nbnt, bmodes, bmeta = run_bez(rep, rng, nb, tmp, rb)
+            nbez, nbnt, bmodes, bmeta = run_bez(rep, rng, nb, tmp, rb, an)
         if not replay or ra:
             narc, nant, afams = run_arc(rep, rng, na, tmp, fx, ra)
         if not replay or rp:
             variants = detect_crop_variants()
             rep.cov['path_cropped_variants_ix_hw_tz'] = list(variants)
-            npa, npnt, pfams, phows, pmeta = run_path(rep, rng, npth, tmp, rp, variants)
+            npa, npnt, pfams, phows, pmeta = run_path(rep, rng, npth, tmp, rp, variants, an)
         rep.cov['evaluations'] = nbez * 9 + narc * 13 + npa * 5
         rep.cov['traces_validated_against_impl'] = nbez + narc + npa
         rep.cov['distinct_nontrivial'] = nbnt + nant + npnt
